@@ -99,18 +99,20 @@ struct Meta {
     aspect: bool,
     font: Option<usize>,
     width: i32,
+    /// the document has no font in slot 0: its only font sits in slot 1 and every cell uses page 1
+    no_slot0: bool,
     /// the attached record disagrees with the buffer about ice colours (a record loaded earlier, then the mode was changed): what is saved describes the buffer
     stale_record: bool,
 }
 
 impl Meta {
     fn base() -> Meta {
-        Meta { title: b"Title".to_vec(), author: b"Author".to_vec(), group: b"Group".to_vec(), comments: vec![], ice: false, spacing: false, aspect: false, font: None, width: 80, stale_record: false }
+        Meta { title: b"Title".to_vec(), author: b"Author".to_vec(), group: b"Group".to_vec(), comments: vec![], ice: false, spacing: false, aspect: false, font: None, width: 80, no_slot0: false, stale_record: false }
     }
     fn json(&self) -> Value {
         json!({"title": cp437(&self.title), "title_bytes": self.title, "author": cp437(&self.author), "group": cp437(&self.group), "comments": self.comments.len(),
                "first_comment": self.comments.first().map(|c| cp437(c)), "ice": self.ice, "letter_spacing": self.spacing, "aspect_ratio": self.aspect,
-               "font": self.font.map(|f| SAUCE_FONT_NAMES[f]), "width": self.width, "record_disagrees_with_buffer_about_ice": self.stale_record})
+               "font": self.font.map(|f| SAUCE_FONT_NAMES[f]), "width": self.width, "no_font_in_slot_0": self.no_slot0, "record_disagrees_with_buffer_about_ice": self.stale_record})
     }
 }
 
@@ -144,6 +146,17 @@ fn build_doc(ext: &str, m: &Meta) -> Buffer {
     }
     if let Some(f) = m.font {
         b.set_font(0, BitFont::from_sauce_name(SAUCE_FONT_NAMES[f]).unwrap());
+    }
+    if m.no_slot0 {
+        b.clear_font_table();
+        b.set_font(1, BitFont::default());
+        for l in b.layers.iter_mut() {
+            for line in l.lines.iter_mut() {
+                for c in line.chars.iter_mut() {
+                    c.attribute.set_font_page(1);
+                }
+            }
+        }
     }
     let mut d = SauceData::default();
     d.title = SauceString::from(cp437(&m.title));
@@ -337,6 +350,12 @@ fn contents_for(ext: &str) -> Vec<(String, Vec<u8>)> {
             v.push(("text, cursor down 30 lines, text".into(), b"A\x1b[30BX".to_vec()));
             v.push(("two lines, cursor home, text, scroll up".into(), b"line1\r\nline2\x1b[1;1HZ\x1b[2S".to_vec()));
             v.push(("margins set from the screen height".into(), b"a\r\nb\r\nc\x1b[2;99r\x1b[99;1Hd\r\ne\r\nf".to_vec()));
+            // commands that work on "the rest of the screen" / "the last line": what they reach must not depend on a declared height
+            v.push(("erase down in colour".into(), b"\x1b[44m\x1b[J".to_vec()));
+            v.push(("one line, then erase to end of line in colour on the second".into(), b"A\r\n\x1b[44m\x1b[K".to_vec()));
+            v.push(("three lines, scroll up one".into(), b"A\r\nB\r\nC\x1b[1S".to_vec()));
+            v.push(("three lines, insert a line at the top".into(), b"A\r\nB\r\nC\x1b[1;1H\x1b[L".to_vec()));
+            v.push(("text on line 30 after 29 line feeds".into(), [vec![b'\n'; 29], b"X".to_vec()].concat()));
         }
         if ext == "avt" {
             v.push(("cursor jump below the first screen".into(), b"\x16\x08\x28\x01X".to_vec()));
@@ -411,6 +430,13 @@ fn build(_prop: &str, tier: &str) -> Sauce {
                     jobs.push(Job::Meta(fi, format!("flags {flags:03b} with an attached record that says the opposite about ice colours"), m));
                 }
             }
+        }
+        // --- a font table without slot 0
+        {
+            let mut m = Meta::base();
+            m.no_slot0 = true;
+            m.comments = vec![b"c".to_vec()];
+            jobs.push(Job::Meta(fi, "font table without slot 0".into(), m));
         }
         // --- widths
         let step = if thorough { 1 } else { 1 };
